@@ -120,6 +120,7 @@ class MainTrackingFile(Contract):
     ghosts = {'k': 'int'}
     slice_from = 'trackme'
     slice_count = 2
+    replay = lambda self, o, model, pid: {'driver': 'main', 'scenarios': ['tracking']} if 'kth_pair' in o.name or 'placed' in o.name else None
 
     def slice_setup(self, ex, st):
         from .common import PS_static, declare_ps, ps_globals
@@ -131,6 +132,7 @@ class MainTrackingFile(Contract):
         self.grid = g.name
         nx, ny, nb = ps_globals(cx)
         st.assume(And(PS_static(cx), declare_ps(cx, g.name), Ruler_valid(cx, g.name + '._axis[0]', nx), Ruler_valid(cx, g.name + '._axis[1]', ny)))
+        self.slice_ghosts(ex, st)
 
     def assigns(self, cx):
         return [('s', 'ghost.*'), ('s', 'init:*'), ('s', 'arg:*')]
@@ -156,6 +158,26 @@ class MainTrackingFile(Contract):
         ex.logw(('len', o.name))
         return VoidV()
 
+    def _placed(self, cx, k):
+        """particle k is the k-th pair (q, p) of the file: q on the position axis, p on the energy axis, each clamped into the grid"""
+        from .common import ps_globals
+        from .sm import ruler_fields
+        from .ps import IStream
+        nx, ny, nb = ps_globals(cx)
+        tm = cx.val('trackme').name
+        tok = cx.arr(IStream.TOK)
+
+        def on_axis(v, ax, n):
+            r = ruler_fields(cx, f'{self.grid}._axis[{ax}]')
+            raw = (v - r['mn']) / r['delta']
+            hi = z3.ToReal(n) - 1
+            return If(raw < 0, z3.RealVal(0), If(raw > hi, hi, raw))
+        return And(cx.sel(tm, k, 'x') == on_axis(z3.Select(tok, 2 * k), 0, nx), cx.sel(tm, k, 'y') == on_axis(z3.Select(tok, 2 * k + 1), 1, ny))
+
+    def slice_ghosts(self, ex, st):
+        from .ps import IStream
+        st.scal[IStream.POS] = IntV(I(0), parse_type_str('long'))
+
     def ensures(self, cx):
         from .common import ps_globals
         nx, ny, nb = ps_globals(cx)
@@ -163,16 +185,20 @@ class MainTrackingFile(Contract):
         tm = cx.val('trackme').name
         inr = And(k >= 0, k < cx.len(tm))
         return [('particles_start_on_grid', {'C15', 'C17'}, Implies(inr, And(cx.sel(tm, k, 'x') >= 0, cx.sel(tm, k, 'x') <= z3.ToReal(nx) - 1,
-                                                                          cx.sel(tm, k, 'y') >= 0, cx.sel(tm, k, 'y') <= z3.ToReal(ny) - 1)))]
+                                                                          cx.sel(tm, k, 'y') >= 0, cx.sel(tm, k, 'y') <= z3.ToReal(ny) - 1))),
+                # C15: the tracked particle starts where the file says -- position on the position axis, energy on the energy axis
+                ('particle_k_is_the_kth_pair_of_the_file', {'C15'}, Implies(inr, self._placed(cx, k)))]
 
     def _inv(self, cx):
         from .common import ps_globals
+        from .ps import IStream
         nx, ny, nb = ps_globals(cx)
         k = cx.g('k')
         tm = cx.val('trackme').name
         inr = And(k >= 0, k < cx.len(tm))
-        return [('len', cx.len(tm) >= 0),
-                ('on_grid', Implies(inr, And(cx.sel(tm, k, 'x') >= 0, cx.sel(tm, k, 'x') <= z3.ToReal(nx) - 1, cx.sel(tm, k, 'y') >= 0, cx.sel(tm, k, 'y') <= z3.ToReal(ny) - 1)))]
+        return [('len', cx.len(tm) >= 0), ('cursor', cx.st.scal[IStream.POS].t == 2 * cx.len(tm)),
+                ('on_grid', Implies(inr, And(cx.sel(tm, k, 'x') >= 0, cx.sel(tm, k, 'x') <= z3.ToReal(nx) - 1, cx.sel(tm, k, 'y') >= 0, cx.sel(tm, k, 'y') <= z3.ToReal(ny) - 1))),
+                ('placed', Implies(inr, self._placed(cx, k)))]
 
     @property
     def loops(self):
